@@ -893,8 +893,21 @@ struct Gen {
             else out.push_back(ordinary());
         }
     }
+    // C04 modes: `applyAction` runs with a ScheduleGrid that knows only the cells some COMPDAT of the deck (or of an ACTIONX
+    // body: `prefetchPossibleFutureConnections`) has looked up while the deck was loaded; a later-step COMPDAT with defaulted
+    // I,J that reaches a further well only because an action changed a well list throws there (design.d/C04.md).  The
+    // never-applied action ZPRE names every cell of the generator grid, so that every cell is known at run time.
+    bool prefetchAll = false;
+    void prefetchAction(std::vector<KwIR>& out) {
+        out.push_back(KwIR{ "ACTIONX", { { "ZPRE" } }, "" });
+        KwIR k{ "COMPDAT", {}, "" };
+        for (int i = 1; i <= 6; ++i) for (int j = 1; j <= 6; ++j) k.recs.push_back({ "ZPRE", std::to_string(i), std::to_string(j), "1", "4", "SHUT" });
+        out.push_back(k);
+        out.push_back(KwIR{ "ENDACTIO", {}, "" });
+    }
     std::vector<KwIR> schedule(int nsteps) {
         std::vector<KwIR> out;
+        if (prefetchAll) prefetchAction(out);
         for (int s = 0; s < nsteps; ++s) {
             stepBody(out, s == 0);
             out.push_back(r.coin(1, 2) ? dates() : tstep());
@@ -1650,7 +1663,7 @@ std::vector<App> chooseApps(vh::Rng& rng, const Schedule& sched, int maxApps, bo
     for (int a = 0; a < want; ++a) {
         std::vector<std::pair<size_t, std::string>> cands;
         for (size_t n = nonDecreasing ? lo : 0; n < sched.size(); ++n)
-            for (const auto& act : sched[n].actions()) cands.push_back({ n, act.name() });
+            for (const auto& act : sched[n].actions()) if (act.name() != "ZPRE") cands.push_back({ n, act.name() });
         if (cands.empty()) break;
         auto c = cands[rng.below(cands.size())];
         App app{ c.first, c.second, {} };
@@ -1682,6 +1695,7 @@ int acorr(uint64_t seed, const std::string& tier, const std::string& outdir) {
     const int N = tierN(tier, 420, 8000);
     for (int it = 0; it < N; ++it) {
         Gen g{ rng, false, true };
+        g.prefetchAll = true;
         auto ks = g.schedule(rng.range(2, 6));
         std::shared_ptr<Deck> deck;
         try { deck = std::make_shared<Deck>(parseText(deckOf(ks))); } catch (...) { sink.count("parse-failed"); continue; }
@@ -1745,6 +1759,7 @@ int aprop(uint64_t seed, const std::string& tier, const std::string& outdir) {
     const int N = tierN(tier, 320, 6000);
     for (int it = 0; it < N; ++it) {
         Gen g{ rng, it % 2 == 0, true };
+        g.prefetchAll = true;
         auto ks = g.schedule(rng.range(2, 6));
         std::shared_ptr<Deck> deck;
         try { deck = std::make_shared<Deck>(parseText(deckOf(ks))); } catch (...) { stats["parse-failed"]++; continue; }
